@@ -288,7 +288,24 @@ def run_unit(unit, want_canary=True, rlimit=None):
         c = classify(d)
         if c is None:
             continue
-        spans = d.get('spans', [])
+        def resolve(sp):
+            # follow macro expansions back to the span inside the generated file
+            seen = 0
+            while sp is not None and os.path.basename(sp.get('file_name', '')) != os.path.basename(path) and seen < 10:
+                exp = sp.get('expansion') or {}
+                nxt = exp.get('span')
+                if nxt is None:
+                    return None
+                nxt = dict(nxt)
+                nxt.setdefault('is_primary', sp.get('is_primary'))
+                nxt['is_primary'] = sp.get('is_primary')
+                nxt['label'] = sp.get('label')
+                sp = nxt
+                seen += 1
+            if sp is not None and os.path.basename(sp.get('file_name', '')) == os.path.basename(path):
+                return sp
+            return None
+        spans = [x for x in (resolve(sp) for sp in d.get('spans', [])) if x is not None]
         prim = [s for s in spans if s.get('is_primary')] or spans
         line = prim[0]['line_start'] if prim else 0
         q = enclosing_fn(ranges, line) if line else None
@@ -321,6 +338,11 @@ def run_unit(unit, want_canary=True, rlimit=None):
                     label = lm2['label']
                     break
         texts = [src_line] + [o['text'] for o in others]
+        texts = []
+        for sp in spans:
+            # only the failing expression itself (primary span, a few lines at most) decides this classification
+            if sp.get('is_primary') and sp.get('line_end', sp['line_start']) - sp['line_start'] <= 8:
+                texts.append(' '.join(lines[sp['line_start'] - 1:sp.get('line_end', sp['line_start'])]))
         f = {'function': owner, 'kind': kind, 'label': label, 'message': d.get('message'), 'line': line,
              'text': src_line[:200], 'related': others, 'tags': tags_of(owner or ''),
              'rendered': (d.get('rendered') or '')[:2000]}
